@@ -24,7 +24,8 @@ EXPLANATION = (
     "solver object did before."
     " (R10) dual membership predicate for (dz,z), primal for (ds,s) in every nonsymmetric cone (C15.R4 re-run); (R11) backtrack_search returns zero or the alpha it has just tested (C15.R11 re-run)."
     " (R12) nonnegative-cone ratio test: component i limits the step iff its direction is < 0 exactly (no tolerance), by -z_i/dz_i (C15.R12 re-run)."
-    " (R13) the previous iterate is restored only under status == InsufficientProgress itself, never on a budget termination.")
+    " (R13) the previous iterate is restored only under status == InsufficientProgress itself, never on a budget termination."
+    ' R11 also: backtrack_search gives up only after a tested trial failed.')
 ASSUMPTIONS = [
     'rustc MIR construction and trait resolution are correct',
     '0 <= linesearch_backtrack_step <= 1 and 0 < max_step_fraction <= 1 (settings are not validated by the crate)',
